@@ -12,12 +12,20 @@
 //!                               RouterInfoApi of this connection) and the unit's metrics as /metrics renders
 //!                               them. Observed `g:L<status>,I<status>,m<0|1>` and, in full mode,
 //!                               `,e<number of recent parse errors the page lists>,o<1 iff oldest first>`;
-//!                               `g:-` if the session ended before the reader got there.
+//!                               `g:-` if the session ended before the reader got there. The metrics text goes
+//!                               through the independent exposition-format reader (engines/promtext.rs): `m1` = it
+//!                               is well formed and has BMP series, `mBAD:<class>@<line>` = it is not. In full mode
+//!                               a second token follows, the unit level counters of this router read from that text:
+//!                               `k:<received per type 0..6, dot separated>,p<processed>,i<invalid>,e<receive io errors>,
+//!                               l<connections lost>,s<the state machine's unprocessable counter>`, `k:-,l..,s..` while
+//!                               the router has no series yet, `k:-` if the visit was not made.
 //!   Z eof | Z hang              what the reader does when the script is exhausted: end of
 //!                               file (default), or stay pending - the harness then terminates
 //!                               the unit's gate (unit shutdown)
 //! Observation: `end:<what the reader did last> pos:<events consumed> tail:<last two updates>
-//! eos:<count> cover:<ok|MISSING>` and, in full mode, `|` followed by every update that left
+//! eos:<count> cover:<ok|MISSING> K:<1 iff the router still has unit level series>,l<connections lost>,
+//! c<bmp_num_connected_routers>` (the /metrics text after the session; `K:BAD:..` if it is malformed)
+//! and, in full mode, `|` followed by every update that left
 //! the gate. A panic of the session task (tokio catches it, the task dies) prints PANIC@<where> first.
 use crate::engines::pipe::{update_bytes, POOL};
 use crate::util::ops;
@@ -297,9 +305,13 @@ async fn ask_pages(fx: &Arc<StreamFixture>, full: bool) -> String {
     let f = fx.clone();
     let (i, ibody) = status(tokio::spawn(async move { f.http_get_router_info().await }).await);
     let f = fx.clone();
-    let m = match tokio::task::spawn_blocking(move || f.metrics_prometheus()).await {
-        Ok(text) => if text.contains("bmp") { "1" } else { "0" },
-        Err(_) => "panic",
+    let rid = fx.router_id;
+    let (m, k) = match tokio::task::spawn_blocking(move || f.metrics_prometheus()).await {
+        Ok(text) => match super::promtext::parse(&text) {
+            Ok(p) => ((if text.contains("bmp") { "1" } else { "0" }).to_string(), unit_counters(&p, rid)),
+            Err(e) => (format!("BAD:{e}"), "k:unreadable".to_string()),
+        },
+        Err(_) => ("panic".to_string(), "k:panic".to_string()),
     };
     // a page is a page: the list has the row of this connection's router (the link to its page)
     let link = format!("href=\"{}{}\"", StreamFixture::HTTP_API_PATH, fx.router_id);
@@ -310,8 +322,50 @@ async fn ask_pages(fx: &Arc<StreamFixture>, full: bool) -> String {
         let whens: Vec<Option<(String, u64)>> = page.lines().filter_map(|x| x.strip_prefix("  When: ")).map(rfc3339_key).collect();
         let sorted = whens.iter().all(|w| w.is_some()) && whens.windows(2).all(|w| w[0] <= w[1]);
         tok.push_str(&format!(",e{},o{}", whens.len(), sorted as u8));
+        tok.push(' ');
+        tok.push_str(&k);
     }
     tok
+}
+
+/// BMP_RFC_7854_MSG_TYPE_NAMES as RFC 7854 section 4.1 lists the types (the harness's own copy)
+const TYPE_NAMES: [&str; 7] = ["Route Monitoring", "Statistics Report", "Peer Down Notification", "Peer Up Notification",
+                               "Initiation Message", "Termination Message", "Route Mirroring Message"];
+
+fn series_of_router<'a>(p: &'a super::promtext::Parsed, rid: u32) -> Vec<&'a super::promtext::Sample> {
+    let r = rid.to_string();
+    p.samples.iter().filter(|s| (s.name.starts_with("rotonda_bmp_tcp_in_") || s.name.starts_with("rotonda_bmp_in_")) && s.label("router") == Some(r.as_str())).collect()
+}
+
+/// the unit level counters of the router (src/units/bmp_tcp_in/metrics.rs) from a parsed /metrics text
+fn unit_counters(p: &super::promtext::Parsed, rid: u32) -> String {
+    let r = rid.to_string();
+    let lost = p.get("rotonda_bmp_tcp_in_connection_lost_count_total", &[]).unwrap_or("?");
+    let unproc = p.get("rotonda_bmp_state_num_unprocessable_bmp_messages_total", &[("router", &r)]).unwrap_or("0");
+    let mine = series_of_router(p, rid);
+    if mine.is_empty() { return format!("k:-,l{lost},s{unproc}"); }
+    let recv: Vec<String> = TYPE_NAMES.iter().map(|t| {
+        p.get("rotonda_bmp_tcp_in_num_bmp_messages_received_total", &[("router", &r), ("msg_type", t)]).unwrap_or("?").to_string()
+    }).collect();
+    let one = |n: &str| p.get(n, &[("router", &r)]).unwrap_or("?").to_string();
+    // ten series per router, no more: seven per-type counters and the three others
+    let extra = if mine.len() == 10 { String::new() } else { format!(",series{}", mine.len()) };
+    format!("k:{},p{},i{},e{},l{lost},s{unproc}{extra}", recv.join("."), one("rotonda_bmp_tcp_in_num_bmp_messages_processed_total"),
+            one("rotonda_bmp_in_num_invalid_bmp_messages_total"), one("rotonda_bmp_tcp_in_num_receive_io_errors_total"))
+}
+
+/// after the session: K:<1 iff the router still has unit level series>,l<connections lost>,c<bmp_num_connected_routers>
+fn final_counters(fx: &StreamFixture) -> String {
+    let text = fx.metrics_prometheus();
+    match super::promtext::parse(&text) {
+        Err(e) => format!("K:BAD:{e}"),
+        Ok(p) => {
+            let present = !series_of_router(&p, fx.router_id).is_empty();
+            let lost = p.get("rotonda_bmp_tcp_in_connection_lost_count_total", &[]).unwrap_or("?");
+            let conn = p.samples.iter().find(|s| s.name.starts_with("rotonda_bmp_num_connected_routers")).map(|s| s.value.as_str()).unwrap_or("?");
+            format!("K:{},l{lost},c{conn}", present as u8)
+        }
+    }
 }
 
 pub fn run_case(line: &str) -> String {
@@ -407,9 +461,10 @@ fn run_once(evs: Vec<Ev>, hang: bool, full: bool) -> String {
             if eos_ok && no_other && all { "ok" } else { "MISSING" }
         } else { "-" };
         out.push(format!("cover:{cover}"));
+        out.push(final_counters(&fx));
         {
             let got = got.lock().unwrap();
-            for k in 0..n_gets { out.push(got.get(k).cloned().unwrap_or_else(|| "g:-".into())); }
+            for k in 0..n_gets { out.push(got.get(k).cloned().unwrap_or_else(|| if full { "g:- k:-".into() } else { "g:-".into() })); }
         }
         if full {
             out.push("|".into());
@@ -461,6 +516,8 @@ pub fn render(d: &str) -> Bytes {
         "I" => enc::mk_initiation_msg("r", "d"),
         "X" => enc::mk_termination_msg(),
         "S" => enc::mk_statistics_report_msg(&pph(n(1) as usize)),
+        // Route Mirroring (type 6): common header, per-peer header, four octets of TLV space (routecore checks the two headers only)
+        "M" => { let mut v = enc::mk_statistics_report_msg(&pph(n(1) as usize)).to_vec(); v[5] = 6; Bytes::from(v) }
         "U" => enc::mk_peer_up_notification_msg(&pph(n(1) as usize), "10.0.0.1".parse().unwrap(), 11019, 4567, 111, 222, 0, 0, vec![], n(2) == 1),
         "D" => enc::mk_peer_down_notification_msg(&pph(n(1) as usize)),
         "R" => enc::mk_raw_route_monitoring_msg(&pph(n(1) as usize), update_bytes(n(2), n(3), &l(4), n(5), &l(6))),
@@ -539,8 +596,34 @@ fn e2e(mode: &str, cut: Option<usize>) {
     });
 }
 
+/// bstream-expo [raw]: the /metrics text of the unit while one router is connected and has sent an Initiation, a Peer
+/// Up and an unparsable frame (so that it has unit level and state machine series), through the independent reader.
+fn expo_probe(raw: bool) {
+    let mut bytes = render("I").to_vec();
+    bytes.extend_from_slice(&render("U.0.1"));
+    bytes.extend_from_slice(&[3, 0, 0, 0, 6, 9]);
+    let evs = vec![Ev::Bytes(bytes)];
+    runtime().block_on(async move {
+        let (hang_tx, hang_rx) = tokio::sync::oneshot::channel();
+        let stats = Arc::new(Stats::default());
+        let reader = ScriptReader { evs, idx: 0, off: 0, hang: true, eof_reads: 0, stats, hang_tx: Some(hang_tx), gets: None, gets_passed: 0, get_asked: false };
+        let fx = Arc::new(StreamFixture::new("198.51.100.1:11019".parse().unwrap()).await);
+        let fx2 = fx.clone();
+        let task = tokio::spawn(async move { fx2.run(reader).await });
+        let _ = hang_rx.await;
+        let text = fx.metrics_prometheus();
+        if raw { print!("{text}"); }
+        println!("up: {}", super::promtext::verdict(&text));
+        tokio::time::sleep(std::time::Duration::from_millis(5)).await;
+        fx.terminate().await;
+        let _ = tokio::time::timeout(std::time::Duration::from_secs(3), task).await;
+        println!("after: {}", super::promtext::verdict(&fx.metrics_prometheus()));
+    });
+}
+
 pub fn special(name: &str, _args: &[String]) -> bool {
     if name == "bstream-gauge" { gauge_probe(); return true; }
+    if name == "bstream-expo" { expo_probe(_args.first().map(|s| s == "raw").unwrap_or(false)); return true; }
     if name == "bstream-e2e" {
         e2e(_args.first().map(|s| s.as_str()).unwrap_or("close"), _args.get(1).and_then(|s| s.parse().ok()));
         return true;
